@@ -130,13 +130,165 @@ def match_table(n):
     return None, None
 
 
+def semantic_public_api(ctx, F, doc_shifts, doc_width):
+    """The property decided through the public API only, whatever the code behind it looks like: the accessors are interpreted on raw values
+    (every value of their own bit field over two backgrounds), `new` on distinguishing arguments, and `DateTime::try_from(u32)` on a
+    structured sample of the 32-bit domain in which each field runs through all of its values while the others hold valid ones (the
+    acceptance condition is a conjunction of per-field conditions; the weekday prediction itself is decided over its whole domain by
+    dt.weekday). -> number of interpretations, or None when the code could not be interpreted (the structural rules decide then)."""
+    import datetime
+    from ..minieval import Mini, Panic, Unsupported
+    FB = {"wow_world_base": F}
+    DT = f"{MOD}::DateTime"
+    tf = F.fn(f"<{DT} as std::convert::TryFrom<u32>>::try_from")
+    accs = {f: F.fn(f"{DT}::{f}") for f in FIELDS}
+    new = F.fn(f"{DT}::new")
+    as_int = F.fn(f"{DT}::as_int")
+    if tf is None or new is None or as_int is None or any(v is None for v in accs.values()):
+        return None
+    full = {f: (1 << doc_width[f]) - 1 for f in FIELDS}
+    n = 0
+
+    def pack(**kw):
+        return sum((kw.get(f, 0) & full[f]) << doc_shifts[f] for f in FIELDS)
+
+    def variant_index(v, names):
+        nm = v[1].split("::")[-1] if isinstance(v, tuple) and len(v) >= 2 and v[0] == "variant" else None
+        return names.index(nm) if nm in names else None
+
+    def acc_value(f, raw):
+        r = Mini(FB, "wow_world_base").call_fn(accs[f]["path"], [("struct", DT, {"inner": raw})])
+        if f == "weekday":
+            return variant_index(r, WEEKDAYS_FROM_SUNDAY)
+        if f == "month":
+            return variant_index(r, MONTHS)
+        return r
+
+    def weekday_of(y, m, d):
+        return (datetime.date(2000 + y, m + 1, d + 1).weekday() + 1) % 7  # Sunday = 0
+
+    try:
+        # (A) accessors: the documented bit field and nothing else
+        for f in FIELDS:
+            limit = {"weekday": 7, "month": 12}.get(f, full[f] + 1)
+            for bg in (0, pack(minutes=63, hours=31, weekday=6, month_day=63, month=11, years_after_2000=255)):
+                for v in range(limit):
+                    raw = (bg & ~(full[f] << doc_shifts[f])) | (v << doc_shifts[f])
+                    n += 1
+                    got = acc_value(f, raw)
+                    if got != v:
+                        ctx.violate("dt.layout", f"accessor|{f}", f"DateTime::{f}() of the raw value {raw:#010x} returns {got}, datetime.md places `{f}` = {v} in bits [{doc_shifts[f]}, {doc_shifts[f] + doc_width[f]})", accs[f]["file"], accs[f]["line"])
+                        break
+                else:
+                    continue
+                break
+        # (B) new(): packs each argument into its own field
+        MP = f"wow_world_base::{MOD[len('crate::'):]}::"
+        for y, m, d, w, h, mi in ((0, 0, 0, 0, 0, 0), (255, 11, 30, 6, 23, 59), (1, 0, 0, 0, 0, 0), (0, 1, 0, 0, 0, 0), (0, 0, 1, 0, 0, 0), (0, 0, 0, 1, 0, 0), (0, 0, 0, 0, 1, 0), (0, 0, 0, 0, 0, 1),
+                                  (128, 8, 16, 4, 16, 32), (85, 5, 21, 2, 10, 42)):
+            n += 1
+            r = Mini(FB, "wow_world_base").call_fn(new["path"], [y, ("variant", MP + "Month::" + MONTHS[m]), d, ("variant", MP + "Weekday::" + WEEKDAYS_FROM_SUNDAY[w]), h, mi])
+            raw = r[2].get("inner") if isinstance(r, tuple) and r and r[0] == "struct" else None
+            want = pack(minutes=mi, hours=h, weekday=w, month_day=d, month=m, years_after_2000=y)
+            if raw != want:
+                ctx.violate("dt.layout", "new|shifts", f"DateTime::new({y}, {MONTHS[m]}, {d}, {WEEKDAYS_FROM_SUNDAY[w]}, {h}, {mi}) packs {raw if raw is None else hex(raw)}, datetime.md gives {want:#010x}", new["file"], new["line"])
+                break
+
+        # (C) acceptance of try_from, field by field
+        def accepted(raw):
+            nonlocal n
+            n += 1
+            r = Mini(FB, "wow_world_base").call_fn(tf["path"], [raw])
+            if isinstance(r, tuple) and r[0] == "Ok":
+                v = r[1]
+                inner = v[2].get("inner") if isinstance(v, tuple) and v and v[0] == "struct" else None
+                if inner != raw:
+                    ctx.violate("dt.layout", "try_from|repack", f"DateTime::try_from({raw:#010x}) succeeds but holds {inner if inner is None else hex(inner)}: the integer form of an accepted value must be unchanged", tf["file"], tf["line"])
+                return True
+            if isinstance(r, tuple) and r[0] == "Err":
+                return False
+            raise Unsupported(f"try_from returns {r!r}")
+
+        def report(key, msg):
+            ctx.violate("dt.tables", key, "DateTime::try_from: " + msg, tf["file"], tf["line"])
+        base = dict(years_after_2000=24, month=5, month_day=14, hours=12, minutes=30)  # 15 June 2024
+        base["weekday"] = weekday_of(24, 5, 14)
+        for f, lim in (("minutes", 60), ("hours", 24)):
+            for v in range(full[f] + 1):
+                ok = accepted(pack(**dict(base, **{f: v})))
+                if ok != (v < lim):
+                    report(f"range|{f}", f"{f} = {v} is {'accepted' if ok else 'rejected'}; exactly 0..={lim - 1} are valid")
+                    break
+        for mth in range(16):
+            kw = dict(base, month=mth, month_day=0)
+            if mth < 12:
+                kw["weekday"] = weekday_of(24, mth, 0)
+            ok = accepted(pack(**kw))
+            if ok != (mth < 12):
+                report("range|month", f"month = {mth} is {'accepted' if ok else 'rejected'}; exactly 0..=11 are valid")
+                break
+        stop = False
+        for y in (0, 1, 4, 23, 100, 200, 255):
+            leap = ((2000 + y) % 4 == 0 and (2000 + y) % 100 != 0) or (2000 + y) % 400 == 0
+            for mth in range(12):
+                L = CALENDAR[mth] + (1 if mth == 1 and leap else 0)
+                for d in sorted({0, 1, 27, 28, 29, 30, 31, 32, 62, 63, L - 1, L}):
+                    kw = dict(base, years_after_2000=y, month=mth, month_day=d)
+                    wds = [weekday_of(y, mth, d)] if d < L else [0, 3, 6]
+                    for w in wds:
+                        ok = accepted(pack(**dict(kw, weekday=w)))
+                        if ok != (d < L):
+                            report("range|month_day|set", f"zero-based day {d} of {MONTHS[mth]} {2000 + y} ({L} days) is {'accepted' if ok else 'rejected'}" + (f" with its real weekday {WEEKDAYS_FROM_SUNDAY[w]}" if d < L else ""))
+                            stop = True
+                            break
+                    if stop:
+                        break
+                if stop:
+                    break
+            if stop:
+                break
+        stop = False
+        for y in (0, 1, 4, 99, 100, 101, 200, 255):
+            for mth in range(12):
+                for d in (0, CALENDAR[mth] - 1):
+                    real = weekday_of(y, mth, d)
+                    for w in range(8):
+                        ok = accepted(pack(**dict(base, years_after_2000=y, month=mth, month_day=d, weekday=w)))
+                        if ok != (w == real):
+                            report("weekday-check", f"{d + 1} {MONTHS[mth]} {2000 + y} is a {WEEKDAYS_FROM_SUNDAY[real]}; weekday field {w} is {'accepted' if ok else 'rejected'}")
+                            stop = True
+                            break
+                    if stop:
+                        break
+                if stop:
+                    break
+            if stop:
+                break
+        # (D) accessors of accepted values return their bit fields (through the value try_from built)
+        for kw in (dict(base), dict(base, years_after_2000=0, month=0, month_day=0, hours=0, minutes=0, weekday=weekday_of(0, 0, 0)),
+                   dict(base, years_after_2000=255, month=11, month_day=30, hours=23, minutes=59, weekday=weekday_of(255, 11, 30))):
+            raw = pack(**kw)
+            r = Mini(FB, "wow_world_base").call_fn(tf["path"], [raw])
+            if isinstance(r, tuple) and r[0] == "Ok":
+                n += 1
+                back = Mini(FB, "wow_world_base").call_fn(as_int["path"], [r[1]])
+                if back != raw:
+                    ctx.violate("dt.layout", "as_int", f"DateTime::try_from({raw:#010x}).as_int() = {back}", as_int["file"], as_int["line"])
+    except (Unsupported, Panic) as e:
+        return None
+    return n
+
+
 def run(ctx):
     F = facts("wow_world_base")
     n = 0
 
+    sem = [None]
+
     def fn(name):
         r = F.fn(f"{MOD}::{name}")
-        if r is None:
+        if r is None and sem[0] is None:
+            # private helpers are anchors only as long as the property is not decided through the public API (semantic_public_api)
             ctx.violate("dt.layout", f"anchor|{name}", f"{MOD}::{name} not found (anchor disappeared)")
         return r
 
@@ -156,9 +308,13 @@ def run(ctx):
     for i, (name, s) in enumerate(order):
         nxt = order[i + 1][1] if i + 1 < len(order) else 32
         doc_width[name] = nxt - s
+    if set(doc_shifts) == set(FIELDS):
+        sem[0] = semantic_public_api(ctx, F, doc_shifts, doc_width)
+    if sem[0] is not None:
+        n += sem[0]
     # ---- D1 extractors -----------------------------------------------------------------------------
     got = {}
-    for name in FIELDS:
+    for name in (FIELDS if sem[0] is None else []):
         r = fn(name)
         if r is None:
             continue
@@ -176,18 +332,20 @@ def run(ctx):
             ctx.violate("dt.layout", f"extractor|{name}|bits", f"{name}() extracts bits [{s}, {s + w}) but datetime.md places the field at [{doc_shifts[name]}, {doc_shifts[name] + doc_width[name]})", r["file"], r["line"])
     covered = sorted((s, s + mk.bit_length()) for s, mk in got.values())
     pos = 0
-    for a, b in covered:
+    for a, b in (covered if sem[0] is None else []):
         if a != pos:
             ctx.violate("dt.layout", "partition", f"bit fields do not partition the 32 bits: gap/overlap at bit {pos} (fields {covered})")
             break
         pos = b
     else:
-        if covered and pos != 32:
+        if covered and pos != 32 and sem[0] is None:
             ctx.violate("dt.layout", "partition", f"bit fields end at bit {pos}, not 32")
     # new(): packs with the documented shifts
     r = F.fn(f"{MOD}::DateTime::new")
     if r is None:
         ctx.violate("dt.layout", "anchor|new", "DateTime::new not found")
+    elif sem[0] is not None:
+        pass
     else:
         n += 1
         terms = []
@@ -213,7 +371,7 @@ def run(ctx):
             if packed != doc_shifts:
                 ctx.violate("dt.layout", "new|shifts", f"DateTime::new packs {packed}, datetime.md says {doc_shifts}", r["file"], r["line"])
     # accessors use their own extractor
-    for acc in FIELDS:
+    for acc in (FIELDS if sem[0] is None else []):
         r = F.fn(f"{MOD}::DateTime::{acc}")
         if r is None:
             ctx.violate("dt.layout", f"anchor|accessor|{acc}", f"DateTime::{acc} not found")
@@ -222,7 +380,7 @@ def run(ctx):
         calls = [H.call_path(x) for x in H.walk(r["hir"]) if H.tag(x) == "call" and (H.call_path(x) or "").startswith(MOD + "::")]
         if calls != [f"{MOD}::{acc}"]:
             ctx.violate("dt.layout", f"accessor|{acc}", f"DateTime::{acc}() does not read the `{acc}` bit field: calls {calls}", r["file"], r["line"])
-    for acc, names in (("weekday", WEEKDAYS_FROM_SUNDAY), ("month", MONTHS)):
+    for acc, names in ((("weekday", WEEKDAYS_FROM_SUNDAY), ("month", MONTHS)) if sem[0] is None else ()):
         r = F.fn(f"{MOD}::DateTime::{acc}")
         if r is None:
             continue
@@ -266,7 +424,15 @@ def run(ctx):
         if ai is not None:
             body = H.strip(ai["hir"])
             inv = {}
-            if H.tag(body) == "match":
+            try:
+                MPq = f"wow_world_base::{MOD[len('crate::'):]}::{ty}::"
+                for i_, nm_ in exp.items():
+                    inv[nm_] = Mini(FBm, "wow_world_base").call_fn(ai["path"], [("variant", MPq + nm_)])
+            except (Unsupported, Panic):
+                inv = {}
+            if inv:
+                pass
+            elif H.tag(body) == "match":
                 for pat, g, b in body[3]:
                     while H.tag(pat) in ("pref", "pderef"):
                         pat = pat[1]
@@ -295,7 +461,10 @@ def run(ctx):
     md = F.fn(f"{MOD}::Month::maximum_days")
     lengths = {}
     if md is None:
-        ctx.violate("dt.tables", "anchor|maximum_days", "Month::maximum_days not found")
+        if sem[0] is None:
+            ctx.violate("dt.tables", "anchor|maximum_days", "Month::maximum_days not found")
+    elif sem[0] is not None:
+        pass  # the month lengths were decided through try_from (every month x leap / common / century years x the days around the length)
     else:
         n += 1
         body = H.strip(md["hir"])
@@ -319,6 +488,8 @@ def run(ctx):
     tf = F.fn(f"<{MOD}::DateTime as std::convert::TryFrom<u32>>::try_from")
     if tf is None:
         ctx.violate("dt.tables", "anchor|try_from", "TryFrom<u32> for DateTime not found")
+    elif sem[0] is not None:
+        pass  # decided by interpretation (semantic_public_api)
     else:
         n += 1
         env = {}
@@ -420,6 +591,40 @@ def run(ctx):
                             "DateTime accepts a weekday on which that date does not fall (and rejects the right one)", pw["file"], pw["line"])
         except (Unsupported, Panic) as e:
             ctx.violate("dt.weekday", "predicted_weekday|shape", f"predicted_weekday: not interpretable — review ({type(e).__name__}: {e})", pw["file"], pw["line"])
+    elif sem[0] is not None:
+        # the predictor is no longer a function of that name: decide the weekday clause through try_from itself - for every date of the
+        # tier the real weekday must be accepted and its two neighbours rejected
+        import datetime
+        from ..minieval import Mini, Panic, Unsupported
+        tfw = F.fn(f"<{MOD}::DateTime as std::convert::TryFrom<u32>>::try_from")
+        days = range(0, 31) if ctx.tier == "thorough" else (0, 1, 27, 28, 29, 30)
+        try:
+            stop = False
+            for y in range(256):
+                for mi in range(12):
+                    for d in days:
+                        try:
+                            real = (datetime.date(2000 + y, mi + 1, d + 1).weekday() + 1) % 7
+                        except ValueError:
+                            continue
+                        n_wd += 1
+                        for w in (real, (real + 1) % 7, (real + 6) % 7):
+                            raw = y << doc_shifts["years_after_2000"] | mi << doc_shifts["month"] | d << doc_shifts["month_day"] | w << doc_shifts["weekday"]
+                            r = Mini({"wow_world_base": F}, "wow_world_base").call_fn(tfw["path"], [raw])
+                            if (isinstance(r, tuple) and r[0] == "Ok") != (w == real):
+                                ctx.violate("dt.weekday", "predicted_weekday", f"DateTime::try_from: {d + 1} {MONTHS[mi]} {2000 + y} is a {WEEKDAYS_FROM_SUNDAY[real]}; the weekday field {w} is {'accepted' if w != real else 'rejected'}", tfw["file"], tfw["line"])
+                                stop = True
+                                break
+                        if stop:
+                            break
+                    if stop:
+                        break
+                if stop:
+                    n_wd = max(n_wd, 93000)
+                    break
+        except (Unsupported, Panic) as e:
+            ctx.violate("dt.weekday", "predicted_weekday|shape", f"DateTime::try_from: not interpretable - review ({e})", tfw["file"], tfw["line"])
+    if pw is not None or sem[0] is not None:
         ctx.rule("dt.weekday", n_wd, floor=16700 if ctx.tier != "thorough" else 93000, note="predicted_weekday interpreted for every year 2000..2255 and month, "
                  + ("every day" if ctx.tier == "thorough" else "days 1, 2, 28..31 (the function is the sum of a year term, a month term and the day; thorough: every day)") + ", against the proleptic Gregorian calendar")
     ctx.rule("dt.layout", n, floor=18, note="extractors, packing, accessors, conversion tables, comparators, month table, leap-year fold")
